@@ -81,6 +81,12 @@ func driveC11(t *testing.T, out *vEmitter) {
 								continue
 							}
 							vSignOutHistory(t, out, c.name, c.redis, c.domains, c.path, c.host, sz, k, method, rd, fault)
+							if fault == vErrBefore {
+								// the store is down for the whole sign-out request: the session load fails too, not only the delete
+								vSignOutWholeRequestFault = true
+								vSignOutHistory(t, out, c.name+"/store-down", c.redis, c.domains, c.path, c.host, sz, k, method, rd, fault)
+								vSignOutWholeRequestFault = false
+							}
 						}
 					}
 				}
@@ -88,6 +94,9 @@ func driveC11(t *testing.T, out *vEmitter) {
 		}
 	}
 }
+
+// vSignOutWholeRequestFault: every store operation of the sign-out request fails, not only the delete.
+var vSignOutWholeRequestFault bool
 
 func vSignOutHistory(t *testing.T, out *vEmitter, name string, redis bool, domains []string, path, host string, sz [2]int, k int, method, rd string, fault vFault) {
 	e := vNewEnv(t, vEnvCfg{oidc: true, redis: redis, mod: func(o *options.Options) {
@@ -137,7 +146,7 @@ func vSignOutHistory(t *testing.T, out *vEmitter, name string, redis bool, domai
 			e.redis.faults = map[int]vFault{}
 			e.redis.mu.Unlock()
 			e.redis.hook = func(kind, key string) {
-				if kind == "del" {
+				if kind == "del" || vSignOutWholeRequestFault {
 					e.redis.mu.Lock()
 					e.redis.faults[len(e.redis.ops)] = fault
 					e.redis.mu.Unlock()
